@@ -1,5 +1,6 @@
 SPECIFICATION Spec
 CONSTANTS
+  Stride = 2
   MaxDepth = 1
 CONSTRAINT Export
 INVARIANT LawRelocate
